@@ -463,6 +463,9 @@ def run(ctx):
     check_sample_crcs(ctx)
     check_replace(ctx)
     check_try_preserve(ctx)
+    # the API functions themselves against the Lean model (Props/C15_OggInject.lean)
+    import ogginject_tie
+    ogginject_tie.run_c15(ctx)
 
 
 def search(ctx):
